@@ -111,8 +111,12 @@ def open_circuit_impedance(network: Network, node1: str, node2: str, node_index_
     return np.linalg.solve(A, unit_current)[i1]
 
 def element_impedance(network: Network, element: str, node_index_mapper: map.NetworkMapper = map.default_node_mapper) -> complex:
+    other_branches = [b for b in network.branches if b.id != element]
+    for node in (network[element].node1, network[element].node2):
+        if not any(node in (b.node1, b.node2) for b in other_branches):
+            return np.inf
     return open_circuit_impedance(
-        network=trf.remove_element(network, element),
+        network=trf.remove_element(trf.switch_ground_node(network, network[element].node2), element),
         node1=network[element].node1,
         node2=network[element].node2,
         node_index_mapper=node_index_mapper
